@@ -470,6 +470,77 @@ func c17Contract(env *core.Env) {
 			env.Violatef("C17/unknown-variable/not-an-evaluation-error", "`%s` must be an evaluation error, observed %s", src, trunc(rr.Short(), 100))
 		}
 	}
+	// every evaluation entry point takes the same options: variables are visible, failing options are reported, nothing is evaluated then
+	{
+		probe := &c17Probe{}
+		in := []fhir.Resource{gen.StdPatient()}
+		optS, optB, optI, optC := evalopts.EnvVariable("vs", system.String("txt")), evalopts.EnvVariable("vb", system.Boolean(true)), evalopts.EnvVariable("vi", system.Integer(41)), evalopts.EnvVariable("vc", &dtpb.Canonical{Value: "http://c|1"})
+		bad := evalopts.EnvVariable("bad", 42)
+		dupe := evalopts.EnvVariable("context", system.Integer(1))
+		co := compopts.AddFunction("probe", probe.f1)
+		type entry struct {
+			name, src, want string
+			call            func(ex *fhirpath.Expression, o ...fhirpath.EvaluateOption) (string, error)
+		}
+		entries := []entry{
+			{"EvaluateAsString", "Patient.probe().select(%vs)", "txt", func(ex *fhirpath.Expression, o ...fhirpath.EvaluateOption) (string, error) { return ex.EvaluateAsString(in, o...) }},
+			{"EvaluateAsBool", "Patient.probe().select(%vb)", "true", func(ex *fhirpath.Expression, o ...fhirpath.EvaluateOption) (string, error) {
+				b, err := ex.EvaluateAsBool(in, o...)
+				return fmt.Sprint(b), err
+			}},
+			{"EvaluateAsInt32", "Patient.probe().select(%vi + 1)", "42", func(ex *fhirpath.Expression, o ...fhirpath.EvaluateOption) (string, error) {
+				i, err := ex.EvaluateAsInt32(in, o...)
+				return fmt.Sprint(i), err
+			}},
+			{"EvaluateAsCanonical", "Patient.probe().select(%vc)", "http://c|1", func(ex *fhirpath.Expression, o ...fhirpath.EvaluateOption) (string, error) {
+				c, err := ex.EvaluateAsCanonical(in, o...)
+				return c.GetValue(), err
+			}},
+			{"Evaluate", "Patient.probe().select(%vs)", "txt", func(ex *fhirpath.Expression, o ...fhirpath.EvaluateOption) (string, error) {
+				c, err := ex.Evaluate(in, o...)
+				if err != nil || len(c) != 1 {
+					return "", err
+				}
+				return fx.Render(c[0]).T, nil
+			}},
+		}
+		for _, e := range entries {
+			ex, _ := fx.Compile(env, e.src, co)
+			if ex == nil {
+				continue
+			}
+			env.Cover("entry-point:" + e.name)
+			var got string
+			var err error
+			out := env.Guard(e.name, func() { got, err = e.call(ex, optS, optB, optI, optC) })
+			env.Eval(1)
+			if out.Panicked || out.Dead {
+				env.Violatef("C17/panic@"+out.Site+"/"+e.name, "%s(`%s`) with variables panicked: %s", e.name, e.src, out.PanicMsg)
+				continue
+			}
+			if err != nil || got != e.want {
+				env.Violatef("C17/entry-point/variable-not-visible/"+e.name, "%s(`%s`) with the variables supplied => %q, %v (expected %q)", e.name, e.src, got, err, e.want)
+			}
+			for _, f := range []struct {
+				o    []fhirpath.EvaluateOption
+				want error
+			}{{[]fhirpath.EvaluateOption{optS, optB, optI, optC, bad}, fhirpath.ErrUnsupportedType}, {[]fhirpath.EvaluateOption{dupe, optS, optB, optI, optC}, fhirpath.ErrExistingConstant}, {[]fhirpath.EvaluateOption{optS, optB, optI, optC, optI}, fhirpath.ErrExistingConstant}} {
+				before := probe.calls
+				out := env.Guard(e.name, func() { got, err = e.call(ex, f.o...) })
+				env.Eval(1)
+				if out.Panicked || out.Dead {
+					env.Violatef("C17/panic@"+out.Site+"/"+e.name, "%s(`%s`) with a failing option panicked: %s", e.name, e.src, out.PanicMsg)
+					continue
+				}
+				if !errors.Is(err, f.want) {
+					env.Violatef("C17/entry-point/failing-option-ignored/"+e.name, "%s(`%s`) with an option that fails with %v => %q, %v", e.name, e.src, f.want, got, err)
+				}
+				if probe.calls != before {
+					env.Violatef("C17/entry-point/evaluated-despite-option-error/"+e.name, "%s(`%s`): the expression was evaluated although an option failed", e.name, e.src)
+				}
+			}
+		}
+	}
 	// an option is a value: the same option object is good for any number of evaluations, also after an evaluation in
 	// which it collided with another option
 	{
